@@ -278,7 +278,7 @@ def child_main(argv):
 
 def parent_main(seed, tier, jobs, cases):
     from h2mon import runner, core
-    nprog = cases if cases is not None else (1600 if tier == 'quick' else 16000)
+    nprog = cases if cases is not None else (1600 if tier == 'quick' else 40000)
     batch = 20 if tier == 'quick' else 100
     hashseeds = ['0', '1', '2', '12345', str(1000 + seed % 100000)]
     if tier == 'thorough':
@@ -379,7 +379,7 @@ MINIMA = {'programs_replayed': 200, 'steps_compared': 20000}
 
 
 def n_cases(tier):
-    return 1600 if tier == 'quick' else 16000
+    return 1600 if tier == 'quick' else 40000
 
 
 def run_case(idx, rng, tier, rep):
